@@ -10,6 +10,7 @@ from harness.common import DRIVER, InfraError
 from harness.runtime_check import classify_error
 
 ECODE = {'dsl-raise': 1, 'await-gone': 2, 'next-gone': 3, 'cancel-gone': 4,
+         'map-empty': 7,
          'AssertionError': 5, 'KeyError': 6, 'RuntimeError': 7,
          'IndexError': 8, 'ValueError': 9}
 
@@ -55,7 +56,15 @@ class Recorder:
                 if op == 's':
                     toks += [0, ins[1]]
                 elif op == 'm':
-                    toks += [1, len(ins[1]), *ins[1]]
+                    if len(ins) > 2 and ins[2][0] in ('z', 'zn'):
+                        # map over argument lists of different lengths:
+                        # the model zips (Instr.mapArgs)
+                        toks += [7, len(ins[1]), *ins[1], 2, ins[2][1],
+                                 ins[2][2]]
+                    else:
+                        toks += [1, len(ins[1]), *ins[1]]
+                elif op == 'y':
+                    pass        # preemption point: no instruction of the model
                 elif op == 'a':
                     toks += [2, ins[1]]
                 elif op == 'n':
@@ -73,6 +82,9 @@ class Recorder:
         self.ev_pos = 0
         self.ci_mbox = {}
         self.alive_before = {}
+        self.dead = False      # a transition ran INSIDE a worker step: the
+        #                        model (handler-level atomicity) cannot follow;
+        #                        the prefix recorded so far is still compared
 
     # ---------------------------------------------------------- rendering
     def s_msg(self, src, dst, m):
@@ -225,6 +237,10 @@ class Recorder:
     def after(self, sim, rec):
         M = self.rs.M
         tr = rec['tr']
+        if rec.get('depth', 0) > 0 or rec.get('nested', 0) > 0:
+            self.dead = True
+        if self.dead:
+            return
         srv = sim.nodes['S'].obj
         for u, (mb, c) in srv.tasks.items():
             self.ci_mbox.setdefault(sim.uuid2comp[u], mb)
